@@ -230,6 +230,12 @@ def san_report(r):
     return t[m.start():m.start() + 3000] if m else None
 
 
+# the native runtime reports an index error through assert() -> abort(): with handle_abort=1 ASan would dress the
+# SIGABRT up as an "AddressSanitizer: ABRT" report; here the process is simply left to die from the signal
+from ..run import ASAN_ENV
+NATIVE_ENV = {"ASAN_OPTIONS": ASAN_ENV["ASAN_OPTIONS"].replace("handle_abort=1", "handle_abort=0")}
+
+
 class Out:
     __slots__ = ("cell", "status", "lines", "rc", "sig", "san", "timeout", "skip", "stderr", "binary", "text", "src")
 
@@ -270,7 +276,7 @@ def execute(flavor, sc, cell, seq):
                     o.skip = "build:nanoc-sanitizer"
             if o.skip:
                 return o
-            r = engines.run_native(d, san=True)
+            r = sh([os.path.join(d, "main.bin")], cwd=d, cpu=10, san=True, env=NATIVE_ENV)
     elif cell.engine == "vm":
         r = engines.run_vm(flavor, d, san=True)
     else:
